@@ -179,6 +179,37 @@ def wrapper_sig(prog, t):
     return None
 
 
+def _padding_from_table(prog, padt, hdr):
+    """`_TABLE[len(header) % 8]` where the module-level table is
+    `tuple(pad['header'](n) for n in range(8))`: the padding to a multiple of
+    8 depends on the length modulo 8 only, so the entry IS
+    pad['header'](len(header))."""
+    want_len = strip_sites(('call', 'len', ('builtin', 'len'), (hdr,), (),
+                            None))
+    if not (kind(padt) == 'sub' and kind(padt[2]) == 'binop' and
+            padt[2][1] == '%' and padt[2][3] == C(8) and
+            strip_sites(padt[2][2]) == want_len and
+            kind(padt[1]) == 'global'):
+        return False
+    m = prog.modules.get(padt[1][1])
+    vals = m.assigns.get(padt[1][2]) if m is not None else None
+    if not vals or len(vals) != 1 or padt[1][2] in m.mutated:
+        return False
+    v = Interp(prog).eval_in_module(m, vals[0])
+    if kind(v) == 'call' and v[1] in ('tuple', 'list') and len(v[3]) == 1:
+        v = v[3][0]
+    if kind(v) != 'comp' or len(v[2]) != 1 or len(v[3]) != 1 or v[5]:
+        return False
+    from ..sym import try_py
+    ok, seq = try_py(v[3][0])
+    el = v[2][0]
+    return bool(ok) and list(seq) == list(range(8)) and \
+        kind(el) == 'call' and kind(el[2]) == 'sub' and \
+        el[2][2] == C('header') and kind(el[2][1]) == 'global' and \
+        el[2][1][2] == 'pad' and len(el[3]) == 1 and \
+        kind(el[3][0]) == 'elem'
+
+
 def marshal_rules(ctx, c, mfi, paths, selft, skip_typing=False):
     prog = ctx.prog
     q = mfi.qualname
@@ -300,6 +331,19 @@ def marshal_rules(ctx, c, mfi, paths, selft, skip_typing=False):
         if kind(raw) == 'call' and kind(raw[2]) == 'attr' and \
                 raw[2][2] == 'join' and raw[3] and kind(raw[3][0]) == 'list':
             parts = [x[1] for x in raw[3][0][1]]
+        elif kind(raw) == 'binop' and raw[1] == '+':
+            # header + padding + body written as a concatenation
+            parts = []
+
+            def flat(t):
+                if kind(t) == 'binop' and t[1] == '+':
+                    flat(t[2])
+                    flat(t[3])
+                else:
+                    parts.append(t)
+            flat(raw)
+            if len(parts) == 2:
+                parts.append(C(b''))     # `x + b''` was folded to x
         if not parts or len(parts) != 3:
             ctx.ob('C03.D4', q, 'layout:%s' % cname, False,
                    'rawMessage must be header + padding + body')
@@ -312,6 +356,8 @@ def marshal_rules(ctx, c, mfi, paths, selft, skip_typing=False):
             padt[2][2] == C('header') and len(padt[3]) == 1 and \
             strip_sites(padt[3][0]) == strip_sites(
                 ('call', 'len', ('builtin', 'len'), (hdr,), (), None))
+        if not okp:
+            okp = _padding_from_table(prog, padt, hdr)
         ctx.ob('C03.D4', q, 'padding-after-header:%s' % cname, okp,
                "the header must be followed by pad['header'](len(header))")
         want_len = strip_sites(('call', 'len', ('builtin', 'len'), (body,),
@@ -632,6 +678,17 @@ def reader_rules(ctx, classes, table_is_mapping=True):
                     continue
                 covered.setdefault('<padding>', set()).add(nh)
                 r = subst_fold(lo, env)
+                if not is_const(r) and contains(
+                        r, lambda x: kind(x) == 'global'):
+                    # the padding comes out of a module-level table the value
+                    # model cannot evaluate (built from marshal.pad at import
+                    # time): not decidable here - not a violation
+                    raise AnalysisError(
+                        'parseMessage: the start of the body is computed '
+                        'from the module-level table %s, which does not '
+                        'fold to constants' % term_str(next(
+                            x for x in walk_term(r)
+                            if kind(x) == 'global')))
                 if r != C(nh + ((-nh) % 8)):
                     okb = False
         ctx.ob('C03.D4', q, 'body-starts-after-padding', okb,
